@@ -29,6 +29,14 @@ CHECKS = {
             "complete runs with the library's own estimator on a menu of refinement-driving integrands checked at every evaluation.",
             "Bounds d<=3, D<=2..3, s<=2; float-exact boxes; tolerance 1e-11. Known finding: rebalancing rotation loses the initial space.",
             "explicit-state BFS over decision histories, basis-function oracle"),
+    "C05": ("DESIGN.md 2/C05",
+            "Complete lattice of standard-combination configurations (d<=3, all lmin<=lmax, 6 grid families), BFS over scripted "
+            "surplus rankings of the dimension-adaptive driver and BFS over refinement-decision histories of the dimension-wise and "
+            "extend-split (version 0) strategies; in every state the reported value is compared with the coefficient-weighted sum "
+            "over fresh grid objects, with evaluate_final_combi(), with the same history run with reevaluate_at_end=True and with "
+            "sum w f(p) over get_points_and_weights().",
+            "Bounds d<=3, D<=2..3, s<=2; relative tolerance 1e-11; integrand menu carried as one vector-valued function.",
+            "explicit-state BFS over decision histories + exhaustive configuration lattice, differential oracle"),
     "C06": ("DESIGN.md 2/C06",
             "BFS over histories of benefit assignments (ties, zeros, values exactly at / just below the margin) on the real dimension-wise "
             "strategy; tiling, level agreement, tree law, coarsening/lmax relations and the independent margin-selection rule "
